@@ -3,6 +3,7 @@ import QcelVerif.Props.C06Hist
 import QcelVerif.Props.C06Idem
 import QcelVerif.Props.C06Shipped
 import QcelVerif.Props.C06Elements
+import QcelVerif.Props.C06Tol
 /-!
 # C06 — nucleus reconciliation: property theorems (index)
 
@@ -14,5 +15,6 @@ import QcelVerif.Props.C06Elements
                 `feedback_wide_window_counterexample`, toy-table tests)
  * `C06Shipped` `shipped_coherent` (decide +kernel over the generated table)
  * `C06Elements` `shipped_elements_default` (decide +kernel: the whole model under rd64 on every element row)
+ * `C06Tol`     `zero_tolerance_exact`, `zero_tolerance_conflict` (mtol = 0 / 0.0 / False is honoured as given: exact-mass matching)
  * (`Model/NucleusShipped`) `lookupRange_memo`
 -/
